@@ -335,7 +335,70 @@ def c10(ctx):
                         "undefined behaviour outside the self-referential term index (std collections) is out of scope"]
 
 
+def iri_family(ctx, mode):
+    binary = build()
+    # (1) the specification itself: RFC 3986 5.4 examples, resolution stays inside the grammar, the transcription of the shipped resolver
+    mc = Bg(lambda: model_check(ctx, "MC_Iri", workers=4, timeout=900))
+    tr = os.path.join(ctx.traces, "iri.ndjson")
+    if mode == "c09":
+        maxlen, hostlen, nmut, npairs = (4, 6, 4000, 6000) if ctx.quick() else (6, 8, 40000, 60000)
+        ctx.exhaustive = True
+    else:
+        maxlen, hostlen, nmut, npairs = (4, 0, 0, 12000) if ctx.quick() else (5, 0, 0, 150000)
+    sv(binary, ["iri", "--mode", mode, "--maxlen", maxlen, "--hostlen", hostlen, "--mut", nmut, "--pairs", npairs, "--seed", ctx.seed, "--out", tr])
+    trace = read_trace(tr)
+    mism = trace_check(ctx, "Trace_Iri", tr, timeout=3000)
+    bad = set()
+    for line, fields in mism:
+        e = trace[line - 1]
+        bad.add(line)
+        code = fields[0]
+        idx = int(fields[1]) if len(fields) > 1 else 0
+        if e["ev"] == "Validate":
+            key, detail = "validate/" + code, "%s disagrees with RFC 3987 on %r: %s" % (code, uncps(e["s"]), json.dumps(e["r"]))
+            if e.get("panic"):
+                detail = "panic while validating %r: %s" % (uncps(e["s"]), e.get("msg"))
+        elif e["ev"] == "Resolve":
+            o = e["outs"][idx - 1]
+            key = code if code.startswith("lib-") else "resolve/%s/%s" % (code, o["via"])
+            detail = "%s(<%s>, <%s>) -> %s %r %s" % (o["via"], uncps(e["base"]), uncps(e["ref"]), o["res"]["k"], uncps(o["res"]["out"]), o["res"]["msg"][:120])
+        elif e["ev"] == "AsBase":
+            o = e["outs"][idx - 1]
+            key, detail = "as-base-panic/" + o["via"], "%s panics on the accepted value %r" % (o["via"], uncps(e["s"]))
+        else:
+            key = "relativize/" + code
+            detail = "relativize(base=<%s>, iri=<%s>, parents=%d) -> %s %r; resolves back to %r" % (uncps(e["base"]), uncps(e["iri"]), e["n"], e["k"], uncps(e["out"]), uncps(e["back"]["out"]))
+        ctx.violations.append({"key": key, "detail": detail, "event": e, "trace": tr, "line": line})
+    ctx.traces_validated += len(trace) - len(bad)
+    for e in trace:
+        if e["ev"] == "Validate" and (e["r"]["valid"] or e["r"]["baseref_new"]):
+            ctx.distinct.add(h(e["s"]))
+        elif e["ev"] in ("Resolve", "Relativize"):
+            ctx.distinct.add(h([e["base"], e.get("ref", e.get("iri")), e.get("n")]))
+    ctx.samples += [{"ev": e["ev"], "base": uncps(e["base"]), "arg": uncps(e.get("ref", e.get("iri")))} for e in trace if e["ev"] in ("Resolve", "Relativize")][:4]
+    mc.join()
+    return maxlen, hostlen, nmut, npairs
+
+
+def c09(ctx):
+    maxlen, hostlen, nmut, npairs = iri_family(ctx, "c09")
+    ctx.rule = ("Iri.tla = RFC 3987 recognisers + RFC 3986 5.2 resolution + a transcription of the shipped third-party resolver (named deviation). Every string of length <= %d over "
+                "{a : / ? # [ ] @ %% 1 .} and every bracketed host of length <= %d over {1 : . f v} is validated by all seven entry points and judged by TLC; a grammar-directed corpus (all IPv6/IPvFuture/IPv4 shapes, "
+                "userinfo, ports, ucschar/iprivate boundaries) and %d single-character mutations; %d (base, reference) pairs of accepted values through 5 resolution entry points + the RFC 5.4 examples. "
+                "A resolution answer is right (= RFC), the known third-party deviation (= LibResolve, in a named class) or a violation. distinct = accepted strings and resolution pairs" % (maxlen, hostlen, nmut, npairs))
+    ctx.assumptions += ["Iri.tla agrees with oxiri's parser on all 274,812 strings of the design-phase run; RFC 3986 5.4 examples are checked by TLC in MC_Iri"]
+
+
+def c17(ctx):
+    maxlen, hostlen, nmut, npairs = iri_family(ctx, "c17")
+    ctx.rule = ("%d (base, IRI, parent limit) triples: all valid absolute IRIs of length <= %d over {a b : / ? # . e-acute}, the C09 corpus, generated hierarchical families, half of them close relatives of the base "
+                "(same document, sibling, child, parent), limits {0,1,2,3,255}. Postcondition judged by TLC: a returned reference is a valid IRI reference, uses <= n leading '..', and resolves back to the IRI "
+                "under RFC 3986 5.2 or under the library's resolver; None is a violation only for a same-document IRI for which a reference exists. distinct = triples" % (npairs, maxlen))
+
+
 FAMILIES = {
+    "C09": c09,
+    "C17": c17,
     "C10": c10,
     "C02": c02,
     "C15": c15,
